@@ -332,17 +332,28 @@ impl Net {
                 }
                 let ts: Vec<usize> = op["ts"].as_array().map(|v| v.iter().filter_map(|z| z.as_u64()).map(|z| z as usize).filter(|z| *z < self.topics.len()).collect()).unwrap_or_default();
                 let like = op.get("like").and_then(|v| v.as_i64()).unwrap_or(-1);
-                let k = self.nextk;
-                self.nextk += 1;
-                let (source, seq) = match self.msgs.get(&like) {
-                    Some(m) => (m.source, m.sequence_number.clone()),
-                    None => (peer(200), vec![k as u8; 20]),
-                };
-                let msg = FloodsubMessage { source, data: format!("m{k}").into_bytes().into(), sequence_number: seq, topics: ts.iter().map(|i| self.topics[*i].clone()).collect() };
-                self.msgs.insert(k, msg.clone());
-                let src = self.node_of(&source);
-                self.links.entry((x, y)).or_default().push_back(FloodsubRpc { messages: vec![msg], subscriptions: Vec::<FloodsubSubscription>::new() });
-                json!({"e": "inj", "x": x, "y": y, "k": k, "ts": ts, "src": src, "like": like})
+                let cnt = op.get("cnt").and_then(|v| v.as_i64()).unwrap_or(1).clamp(1, 3);
+                let mut ks = vec![];
+                let mut messages = vec![];
+                let mut src = -1;
+                for c in 0..cnt {
+                    let k = self.nextk;
+                    self.nextk += 1;
+                    // only the first message of the RPC is the look-alike
+                    let (source, seq) = match self.msgs.get(&like).filter(|_| c == 0) {
+                        Some(m) => (m.source, m.sequence_number.clone()),
+                        None => (peer(200), vec![k as u8; 20]),
+                    };
+                    let msg = FloodsubMessage { source, data: format!("m{k}").into_bytes().into(), sequence_number: seq, topics: ts.iter().map(|i| self.topics[*i].clone()).collect() };
+                    self.msgs.insert(k, msg.clone());
+                    if c == 0 {
+                        src = self.node_of(&source);
+                    }
+                    ks.push(k);
+                    messages.push(msg);
+                }
+                self.links.entry((x, y)).or_default().push_back(FloodsubRpc { messages, subscriptions: Vec::<FloodsubSubscription>::new() });
+                json!({"e": "inj", "x": x, "y": y, "ks": ks, "ts": ts, "src": src, "like": like})
             }
             // a foreign implementation's announcement that omits the optional `subscribe` flag (protobuf default:
             // false = unsubscribe) arrives on x -> y: hand-made wire bytes through the real decoder
@@ -476,7 +487,7 @@ fn gen_random(rng: &mut rand::rngs::StdRng) -> Value {
             50..=52 => json!({"a": "disc", "x": x, "y": y}),
             53..=54 => json!({"a": "unview", "x": x, "y": y}),
             55 => json!({"a": "injraw", "x": x, "y": y, "t": tt}),
-            56..=57 => json!({"a": "inj", "x": x, "y": y, "ts": ts_of(rng), "like": if rng.gen_bool(0.5) && net.nextk > 0 { rng.gen_range(0..net.nextk) } else { -1 }}),
+            56..=57 => json!({"a": "inj", "x": x, "y": y, "ts": ts_of(rng), "cnt": rng.gen_range(1..=3), "like": if rng.gen_bool(0.5) && net.nextk > 0 { rng.gen_range(0..net.nextk) } else { -1 }}),
             _ => {
                 if let Some(&(a, b, l)) = busy.choose(rng) {
                     json!({"a": "dlv", "x": a, "y": b, "i": if fifo || rng.gen_bool(0.5) { 0 } else { rng.gen_range(0..l) }})
@@ -546,7 +557,7 @@ fn directed() -> Vec<Value> {
             {"a":"injraw","x":1,"y":0,"t":0},{"a":"flush"},{"a":"pub","x":0,"ts":[0],"any":false},{"a":"pub","x":0,"ts":[0,1],"any":true},{"a":"flush"}]}));
         // forged look-alike (same source and sequence number, other data) and a message from an unknown source
         v.push(tri(vec![json!({"a":"sub","x":0,"t":0}), json!({"a":"sub","x":1,"t":0}), json!({"a":"sub","x":2,"t":0}), json!({"a":"flush"}),
-                        json!({"a":"pub","x":0,"ts":[0],"any":false}), json!({"a":"flush"}), json!({"a":"inj","x":1,"y":2,"ts":[0],"like":0}), json!({"a":"inj","x":1,"y":0,"ts":[0],"like":0}), json!({"a":"inj","x":2,"y":0,"ts":[0,1],"like":-1})], slm, true));
+                        json!({"a":"pub","x":0,"ts":[0],"any":false}), json!({"a":"flush"}), json!({"a":"inj","x":1,"y":2,"ts":[0],"like":0}), json!({"a":"inj","x":1,"y":0,"ts":[0],"like":0}), json!({"a":"inj","x":2,"y":0,"ts":[0,1],"like":-1}), json!({"a":"flush"}), json!({"a":"inj","x":0,"y":1,"ts":[0],"like":-1,"cnt":3}), json!({"a":"inj","x":2,"y":1,"ts":[0],"like":0,"cnt":2})], slm, true));
     }
     v
 }
